@@ -3,9 +3,10 @@ SPEC = {
     "lean_props": ["TunnoxModel.Props.C19"],
     "harness": {
         "pkg": "c19",
-        "shims": {"domainproxy": "internal/httpservice/modules/domainproxy"},
+        "shims": {"domainproxy": "internal/httpservice/modules/domainproxy", "httpservice": "internal/httpservice"},
         "runs": [{"args": [], "corpus": ""}],
     },
+    "skip_model_prefix": ["c19r"],
     "level_text": ("Lean 4 theorem C19_main: for every set of client threads, every history of create / delete / update / lookup operations, "
                    "every registry / cloud table and every schedule of storage steps, the observation of the executable interleaving model of "
                    "CreateMapping / DeleteMapping / UpdateMapping / lookupMapping (one model step per storage call) satisfies `holds` — the "
@@ -23,7 +24,10 @@ SPEC = {
              "update||delete, ...), segment-cut and uniform samples of 3-4 thread templates (double delete around a re-claim, zombie "
              "record re-delete), Host spellings (ports, empty port, IPv6 literals, case, trailing dot, junk) against every status/expiry "
              "variant and registry/cloud fallback entry, boundary/malformed creates, single storage-failure injection at every call of CreateMapping "
-             "(fault gate in the store wrapper), random programs with random schedules. "
+             "(fault gate in the store wrapper), random programs with random schedules; DomainRegistry: sequential Register/Unregister/LookupByHost "
+             "histories compared with the model, and simultaneous Register calls of 2-8 claimants for one unclaimed name released by a barrier "
+             "(half of the rounds: the registry's own write lock held through a verif-only shim, so all claimants sit at their first lock "
+             "acquisition and start together), each round judged by holdsReg. "
              "non-trivial = more than one thread or a non-empty schedule; distinct = distinct case strings"),
     "trusted_base": [
         "Lean 4.33 kernel; axioms propext, Classical.choice, Quot.sound only (audited per theorem on every run)",
@@ -37,5 +41,6 @@ SPEC = {
         "the delete claim's lease (30 s) outlives one DeleteMapping call; storage failures are injected for CreateMapping only (single failure, sequential: C19_failed_create_leaves_nothing), not inside interleavings and not for DeleteMapping",
         "expiry values used by the harness are far from the wall clock, so the model's explicit clock and time.Now() agree",
         "registry (deprecated in-memory source) and cloud control are static tables per case; the registry step is atomic with the preceding storage step",
+        "DomainRegistry has no injectable call between its lock sections: its interleavings are quantified by the Lean theorem C19_registry_single_owner (one model step per lock section, tied by the lock-fact skeletons skel_Registry); on the real code simultaneous claimants are a barrier-released search (scheduler-dependent), not an enumeration",
     ],
 }
